@@ -294,7 +294,7 @@ def minimise(D, case, simplify, rounds=3):
     return cur
 
 
-def run_generic(run, prop, cases, cmd, model, pr, simplify, model_desc, replay_case, max_min=3):
+def run_generic(run, prop, cases, cmd, model, pr, simplify, model_desc, replay_case, max_min=2):
     """shared by C17/C18/C19: evaluate, minimise the first failing cases in batches (one compile per
     round instead of one per deleted token), judge.  Returns (cases, I, R, S)."""
     env = C.lib_env("asan")
